@@ -194,9 +194,15 @@ impl EventParser {
             Expr::Call(call) => {
                 // Function call like Type::new() or Type::default()
                 if let Expr::Path(path) = &*call.func {
-                    // Check for Type::method() pattern
-                    if path.path.segments.len() >= 2 {
-                        return path.path.segments[0].ident.to_string();
+                    // Check for Type::method() pattern: the segment before the function
+                    // name, and only if it is spelled like a type (module::function() and
+                    // crate::module::function() say nothing about the returned type)
+                    let segments = &path.path.segments;
+                    if segments.len() >= 2 {
+                        let owner = segments[segments.len() - 2].ident.to_string();
+                        if owner.chars().next().is_some_and(|c| c.is_uppercase()) {
+                            return owner;
+                        }
                     }
                 }
             }
